@@ -1,6 +1,7 @@
 import AdfObdd.NgStore
 import AdfObdd.NgModel
 import AdfObdd.NgSpecFacts
+import AdfObdd.NgWideFacts
 /-! # C18 — nogood store: sound deductions, no spurious conflicts, nothing forgotten
 
 Model (`NgStore.lean`): the store as the repaired `lib/src/nogoods.rs` implements it — `n + 1`
@@ -434,5 +435,110 @@ example : Shaped 2 [.add [none, some false], .add [some true, some false]] ∧
   · rcases hg with rfl | rfl <;> rfl
   · rcases hg with rfl | rfl <;> rfl
   · subst hg; rfl
+
+/-! ## wide stores: the search-based specification
+
+Beyond 10 variables the model driver cannot enumerate all `2^n` total assignments; it judges the
+implementation's answers with `Spec/NgWide.lean`, whose only new ingredient is the backtracking
+search `NgSpec.avoidingExt n gs A` for a total assignment (value list of length `n`) that extends
+the interpretation `A` and matches none of the nogoods `gs`. Width hypotheses as checked by the
+driver: interpretation, answers and nogoods are vectors of width `n`. -/
+
+/-- **the search is sound**: what it returns is a total assignment over `n` variables that extends
+the interpretation and matches no nogood -/
+theorem wide_spec_sound (n : Nat) (gs : List PA) (A : PA) (t : List Bool) (hgs : ∀ g ∈ gs, g.length = n)
+    (hA : A.length = n) (h : NgSpec.avoidingExt n gs A = some t) :
+    t.length = n ∧ NgSpec.matchesT A t = true ∧ (∀ g ∈ gs, NgSpec.matchesT g t = false) ∧
+    Matches A (NgSpec.asg t) ∧ AvoidsL gs (NgSpec.asg t) :=
+  have hgs' : ∀ g ∈ gs, g.length ≤ n := fun g hg => Nat.le_of_eq (hgs g hg)
+  have ⟨a, b, c⟩ := NgSpec.avoidingExt_some hgs' hA h
+  have ⟨_, d, e⟩ := NgSpec.avoidingExt_sound hgs' hA h
+  ⟨a, b, c, d, e⟩
+
+/-- **the search is complete**: if it returns nothing, no total assignment extends the
+interpretation and avoids all nogoods — neither among the value lists of length `n` nor among all
+assignments -/
+theorem wide_spec_complete (n : Nat) (gs : List PA) (A : PA) (hgs : ∀ g ∈ gs, g.length = n)
+    (hA : A.length = n) (h : NgSpec.avoidingExt n gs A = none) :
+    (¬ ∃ t : List Bool, t.length = n ∧ NgSpec.matchesT A t = true ∧ ∀ g ∈ gs, NgSpec.matchesT g t = false) ∧
+    ∀ σ, Matches A σ → ¬ AvoidsL gs σ :=
+  have hgs' : ∀ g ∈ gs, g.length ≤ n := fun g hg => Nat.le_of_eq (hgs g hg)
+  ⟨NgSpec.avoidingExt_none hgs' hA h, (NgSpec.avoidingExt_none_iff hgs' hA).mp h⟩
+
+/-- non-vacuity at a width the brute-force specification cannot reach, on the witness of the seeded
+mutation "duplicate test modulo 64": `{x3=T,x5=F}`, `{x67=T,x69=F}` over 70 variables. The
+interpretation `{x67=T}` has an avoiding extension, `{x67=T,x69=F}` has none. -/
+def wideDemo : List PA :=
+  [setAt (setAt (List.replicate 70 none) 3 true) 5 false, setAt (setAt (List.replicate 70 none) 67 true) 69 false]
+
+example : (NgSpec.avoidingExt 70 wideDemo (setAt (List.replicate 70 none) 67 true)).isSome = true ∧
+    NgSpec.avoidingExt 70 wideDemo (setAt (setAt (List.replicate 70 none) 67 true) 69 false) = none ∧
+    NgSpec.avoidingExt 2 (added demo) [none, none] = some [true, true] ∧
+    NgSpec.avoidingExt 2 (added demo) [some false, none] = none := by decide
+
+/-- **the W-checks of `conclusions` and `conclusion_closure` are the brute-force checks**: same
+clauses, same verdicts — so `spec_concl_meaning` / `spec_closure_meaning` apply to them verbatim -/
+theorem wide_spec_eq (n : Nat) (gs : List PA) (A : PA) (hgs : ∀ g ∈ gs, g.length = n) (hA : A.length = n) :
+    NgSpec.conclViolationsW n gs A none = NgSpec.conclViolations n gs A none ∧
+    (∀ r, r.length = n → NgSpec.conclViolationsW n gs A (some r) = NgSpec.conclViolations n gs A (some r)) ∧
+    NgSpec.closureViolationsW n gs A .inconsistent = NgSpec.closureViolations n gs A .inconsistent ∧
+    NgSpec.closureViolationsW n gs A .noUpdate = NgSpec.closureViolations n gs A .noUpdate ∧
+    (∀ r, r.length = n → NgSpec.closureViolationsW n gs A (.update r) = NgSpec.closureViolations n gs A (.update r)) := by
+  have hgs' : ∀ g ∈ gs, g.length ≤ n := fun g hg => Nat.le_of_eq (hgs g hg)
+  refine ⟨NgSpec.conclViolationsW_eq hgs' hA none (fun _ h => by cases h),
+    fun r hr => NgSpec.conclViolationsW_eq hgs' hA (some r) (fun r' h => by cases h; exact Nat.le_of_eq hr),
+    NgSpec.closureViolationsW_eq hgs' hA _ (fun _ h => by cases h),
+    NgSpec.closureViolationsW_eq hgs' hA _ (fun _ h => by cases h),
+    fun r hr => NgSpec.closureViolationsW_eq hgs' hA _ (fun r' h => by cases h; exact Nat.le_of_eq hr)⟩
+
+/-- **the W-check of the store means the property** and accepts exactly the dumps the brute-force
+check accepts; a witness it reports is a total assignment excluded by one of the two sets only -/
+theorem wide_spec_store (n : Nat) (gs stored : List PA) (hgs : ∀ g ∈ gs, g.length = n)
+    (hst : ∀ g ∈ stored, g.length = n) :
+    (NgSpec.storeViolationsW n gs stored = [] ↔ ∀ σ, ExcludedBy stored σ ↔ ExcludedBy gs σ) ∧
+    (NgSpec.storeViolationsW n gs stored = [] ↔ NgSpec.storeViolations n gs stored = []) ∧
+    (∀ t, NgSpec.escaping n gs stored = some t →
+      t.length = n ∧ ExcludedBy gs (NgSpec.asg t) ∧ ¬ ExcludedBy stored (NgSpec.asg t)) ∧
+    (∀ t, NgSpec.escaping n stored gs = some t →
+      t.length = n ∧ ExcludedBy stored (NgSpec.asg t) ∧ ¬ ExcludedBy gs (NgSpec.asg t)) :=
+  ⟨NgSpec.storeViolationsW_nil hgs hst, NgSpec.storeViolationsW_iff hgs hst,
+   fun _ h => NgSpec.escaping_some hgs (fun g hg => Nat.le_of_eq (hst g hg)) h,
+   fun _ h => NgSpec.escaping_some hst (fun g hg => Nat.le_of_eq (hgs g hg)) h⟩
+
+/-- the store that lost `{x67=T,x69=F}` as a "duplicate" is rejected, with a witness; the full one passes -/
+example : NgSpec.storeViolationsW 70 wideDemo wideDemo = [] ∧
+    (NgSpec.storeViolationsW 70 wideDemo (wideDemo.take 1)).length = 1 ∧
+    NgSpec.storeViolationsW 2 (added demo) [[none, some false]] = ["forgotten:FT"] ∧
+    NgSpec.conclViolationsW 2 (added demo) [none, none] none = ["spurious-conflict"] ∧
+    NgSpec.conclViolationsW 70 wideDemo (setAt (setAt (List.replicate 70 none) 67 true) 69 false)
+      (some (setAt (setAt (List.replicate 70 none) 67 true) 69 false)) = ["missed-direct-conflict"] := by
+  decide
+
+/-- **the model always passes the W-specification**, at every width -/
+theorem model_passes_wide_spec (n : Nat) (cs : List Cmd) (hs : Shaped n cs) (A : PA) (hA : A.length = n) :
+    NgSpec.conclViolationsW n (added cs) A ((after n cs).conclusions A) = [] ∧
+    NgSpec.closureViolationsW n (added cs) A (NgSpec.ofClosure ((after n cs).closure A)) = [] ∧
+    NgSpec.storeViolationsW n (added cs) (after n cs).buckets.flatten = [] := by
+  have ⟨m1, m2, m3⟩ := model_passes_spec n cs hs A hA
+  have hs' : ∀ g ∈ added cs, g.length ≤ n := fun g hg => Nat.le_of_eq (hs g hg)
+  refine ⟨?_, ?_, ?_⟩
+  · rw [NgSpec.conclViolationsW_eq hs' hA]; exact m1
+    intro r hr
+    exact Nat.le_of_eq (conclusions_sound n cs hs A r hA hr).2.1
+  · rw [NgSpec.closureViolationsW_eq hs' hA]; exact m2
+    intro r hr
+    cases hc : (after n cs).closure A with
+    | inconsistent => rw [hc] at hr; cases hr
+    | noUpdate => rw [hc] at hr; cases hr
+    | update R =>
+      rw [hc] at hr
+      simp only [NgSpec.ofClosure] at hr
+      cases hr
+      exact Nat.le_of_eq ((closure_sound n cs hs A hA).1 _ hc).2.2.1
+  · have hinv := store_invariant n cs hs
+    refine (NgSpec.storeViolationsW_iff hs ?_).mpr m3
+    intro g hg
+    obtain ⟨b, hb, hgb⟩ := List.mem_flatten.mp hg
+    exact hinv.lengths b hb g hgb
 
 end C18
